@@ -242,7 +242,18 @@ class SymmetryTranslator:
                     for pred in potential_equalities[index]:
                         used_variables.update(collect_ast(pred.atom.symbol.arguments[pos], "Variable"))
                         used_uneq_variables[index].update(collect_ast(pred.atom.symbol.arguments[pos], "Variable"))
-            if len((global_vars_inside_body(lits) | global_vars) & used_variables) == 0:
+            # the compared variables may not occur anywhere else, also not inside conditions or aggregates
+            other_vars: set[AST] = set()
+            for lit in lits:
+                other_vars.update(collect_ast(lit, "Variable"))
+            # also not at the equal positions of (other) symmetric literals
+            for index in index_subset:
+                unequal_positions = set(potential_strict_inequalities[index]) | set(potential_nstrict_inequalities[index])
+                for pred in potential_equalities[index]:
+                    for pos, arg in enumerate(pred.atom.symbol.arguments):
+                        if pos not in unequal_positions:
+                            other_vars.update(collect_ast(arg, "Variable"))
+            if len((other_vars | global_vars) & used_variables) == 0:
                 # built ccs, in a cc, only one comparison can be improved
                 g = nx.Graph()
                 for index1 in index_subset:
@@ -403,7 +414,9 @@ class SymmetryTranslator:
                     for t in [stm.weight, stm.priority, *stm.terms]:
                         global_vars.update(collect_ast(t, "Variable"))
                 for symmetry_bundle in list(
-                    self.largest_symmetric_group(condition, global_vars, list(elem.terms) + list(stm.body), True)
+                    self.largest_symmetric_group(
+                        condition, global_vars, list(elem.terms) + [b for b in stm.body if b != blit], True
+                    )
                 ):
                     log.info(f"Replace atleast2 in aggregate {str(blit)}.")
                     for lit in symmetry_bundle.remove_lits():
